@@ -48,7 +48,6 @@ def run(c):
     c.r2_arg("hydrate-uses-cut-outputs", HYD, BINIT, 1, must=["call:transaction::cut_through"], desc="hydrate_from: the body's outputs are the ones cut_through returned (plus the compact block's full outputs)")
     c.loop("hydrate-collects-every-tx", HYD, EXT, "arg1", desc="hydrate_from: every transaction's inputs / outputs / kernels are collected (per loop iteration)")
     c.r1("hydrate-adds-full-parts", HYD, EXT, start=CUT, sink="ok", via=0, called_only=True, desc="hydrate_from: the compact block's full outputs / kernels are added after cut-through")
-    c.r2_ret("hydrate-keeps-header", HYD, must=["arg0.header"], desc="hydrate_from: the block carries the compact block's header") if False else None
     # --- deaggregate
     c.r1("deaggregate-aggregates-subset", DEAGG, AGG, sink=TXNEW, via=1, desc="deaggregate: the known subset is aggregated before the remainder is built")
     # --- compact block
